@@ -36,8 +36,8 @@ ASSUMPTIONS = [
     "Transitions.matrix() is compared outside the last row/column under site permutation (known finding K2 of C05 folds no-site events there)",
     'K1 (MDAnalysis PeriodicKDTree misses in strongly skewed boxes) is tolerated only when a direct MDAnalysis call reproduces the miss in the deviating representation',
 ]
-N_CASES = {'quick': 192, 'thorough': 3000}
-BUDGET_S = {'quick': 230, 'thorough': 2600}
+N_CASES = {'quick': 192, 'thorough': 12000}
+BUDGET_S = {'quick': 230, 'thorough': 3600}
 K1 = c02.K1
 ECOLS = ['atom index', 'start site', 'destination site', 'start inner site', 'destination inner site', 'time']
 JCOLS = ['atom index', 'start site', 'destination site', 'start time', 'stop time']
